@@ -330,6 +330,64 @@ pub fn replay_conv(rep: &mut Report, rec: &J) {
 	let _ = project;
 }
 
+
+// ------------------------------------------------------------------------- fragment iterators (FragIter.tla)
+
+fn frag_volume(f: &FragmentRef) -> usize {
+	match f {
+		FragmentRef::Value(v) => v.traverse().count(),
+		FragmentRef::Entry(e) => 2 + e.value.traverse().count(),
+		FragmentRef::Key(_) => 1,
+	}
+}
+
+/// One behaviour of MC_FragIter: a value, one of its fragments, a sequence of next()/next_back() calls on its
+/// SubFragments iterator with the expected yields; for the root also the whole traversal.
+pub fn replay_fragiter(rep: &mut Report, rec: &J) {
+	rep.count("fragiter_vectors");
+	let v = build(&rec["v"]).unwrap_or_else(|e| tool_error(&format!("fragiter vector: {e}")));
+	let fi = rec["fi"].as_u64().unwrap() as usize;
+	let r = guarded(|| {
+		let f = match v.get_fragment(fi) {
+			Ok(f) => f,
+			Err(_) => return Err(json!({"what": "get_fragment rejects an index inside the value", "fi": fi})),
+		};
+		if frag_brief(&f, frag_volume(&f)) != rec["frag"] {
+			return Err(json!({"what": "get_fragment(i) is not the i-th fragment of the pre-order list", "observed": frag_brief(&f, frag_volume(&f))}));
+		}
+		let mut it = f.sub_fragments();
+		let mut got = vec![];
+		for c in rec["calls"].as_array().unwrap() {
+			let y = if c.as_str() == Some("front") { it.next() } else { it.next_back() };
+			got.push(match y {
+				Some(y) => frag_brief(&y, frag_volume(&y)),
+				None => json!({"fk": "none"}),
+			});
+		}
+		if J::Array(got.clone()) != rec["ys"] {
+			return Err(json!({"what": "SubFragments yields differ from the double-ended iterator specification", "observed": got}));
+		}
+		if let Some(tr) = rec["trav"].as_array() {
+			if !tr.is_empty() {
+				let obs: Vec<J> = v.traverse().map(|(_, f)| frag_brief(&f, frag_volume(&f))).collect();
+				let offs_ok = v.traverse().enumerate().all(|(i, (j, _))| i == j);
+				if &obs != tr || !offs_ok {
+					return Err(json!({"what": "traverse() is not the pre-order fragment list numbered from 0", "observed": obs}));
+				}
+			}
+		}
+		Ok(())
+	});
+	match r {
+		Ok(Ok(())) => (),
+		Ok(Err(d)) => rep.mismatch("C11.fragiter", json!({"detail": d, "vector": rec})),
+		Err(p) => rep.mismatch("C11.fragiter", json!({"detail": {"what": "panic", "panic": p}, "vector": rec})),
+	}
+	rep.note_distinct(hash_of(&rec.to_string()));
+	let n = rep.counters["fragiter_vectors"];
+	rep.sample(9973, n, || json!({"value": project(&v).to_string(), "fragment": rec["fi"], "calls": rec["calls"], "yields": rec["ys"]}));
+}
+
 // ------------------------------------------------------------------------- impl -> spec
 
 fn shape_json(name: &str) -> J {
